@@ -79,11 +79,11 @@ theorem scalar_defects_nil (f : Field) (a : Action) (k : Kind)
         · exact ⟨by simpa using h1, by simpa using h2, by simpa using h3, by simpa using h4⟩
 
 /-- the typing of one field's value, given the typing of the levels below. -/
-theorem fieldWT_mockField (rq : Request) (env : Env) (hc : CleanTable env.tbl) (fuel : Nat)
-    (hrec : ∀ site c, msgDefects rq fuel c = [] → wt rq fuel c (mockMsg rq env fuel site c) = true)
+theorem fieldWT_mockField (rq : Request) (env : Env) (hc : CleanTable env.tbl) (fuel : Nat) (vis : List Str)
+    (hrec : ∀ site c, msgDefects rq fuel vis c = [] → wt rq fuel c (mockMsg rq env fuel vis site c) = true)
     (site mname : Str) (f : Field) (v : Val)
-    (hdef : stmtDefects rq (msgDefects rq fuel) f = [])
-    (hmf : mockField rq env (mockMsg rq env fuel) site mname f = some v) :
+    (hdef : stmtDefects rq vis (msgDefects rq fuel vis) f = [])
+    (hmf : mockField rq env vis (mockMsg rq env fuel vis) site mname f = some v) :
     fieldWT rq (wt rq fuel) f v = true := by
   unfold mockField at hmf
   unfold stmtDefects at hdef
@@ -91,21 +91,31 @@ theorem fieldWT_mockField (rq : Request) (env : Env) (hc : CleanTable env.tbl) (
   by_cases hmap : f.card = .map
   · -- map field
     simp only [hmap, beq_self_eq_true, if_true] at hmf hdef ⊢
-    cases hmf
-    simp only [List.all_cons, List.all_nil, Bool.and_true]
-    unfold elemWT
     by_cases hk : f.kind = .message
-    · simp only [hk, beq_self_eq_true, if_true] at hdef ⊢
-      cases hfm : rq.findMessage f.typeName with
-      | none => simp
-      | some c =>
-        simp only [hfm] at hdef ⊢
-        by_cases hts : isTimestampName f.typeName = true
-        · simp [hts] at hdef
-        · simp only [hts] at hdef
-          exact hrec _ c (by simpa using hdef)
+    · simp only [hk, beq_self_eq_true, if_true] at hmf hdef
+      by_cases hv : vis.contains f.typeName = true
+      · rw [if_pos hv] at hmf; cases hmf
+      · have hv' : vis.contains f.typeName = false := by simpa using hv
+        simp only [hv', Bool.false_eq_true, if_false] at hmf hdef
+        cases hfm : rq.findMessage f.typeName with
+        | none =>
+          simp only [hfm] at hmf
+          cases hmf
+          simp [elemWT, hk, hfm]
+        | some c =>
+          simp only [hfm] at hmf hdef
+          cases hmf
+          by_cases hts : isTimestampName f.typeName = true
+          · simp [hts] at hdef
+          · simp only [hts] at hdef
+            simp only [List.all_cons, List.all_nil, Bool.and_true, elemWT, hk, beq_self_eq_true, if_true, hfm]
+            exact hrec _ c (by simpa using hdef)
     · have hk' : (f.kind == Kind.message) = false := by simpa using hk
-      simp only [hk', if_false, Bool.false_eq_true] at hdef ⊢
+      simp only [hk', if_false, Bool.false_eq_true] at hmf hdef
+      cases hmf
+      simp only [List.all_cons, List.all_nil, Bool.and_true]
+      unfold elemWT
+      simp only [hk', if_false, Bool.false_eq_true]
       revert hdef hk
       cases f.kind <;> simp [emittedScalarTy, goScalar, defaultLit, litAssignable, mapScalarDefault, leafWT, int32Min, int32Max, int64Min, int64Max]
   · have hmap' : (f.card == Card.map) = false := by simpa using hmap
@@ -164,6 +174,10 @@ theorem fieldWT_mockField (rq : Request) (env : Env) (hc : CleanTable env.tbl) (
         simp only [h3', Bool.false_eq_true, if_false] at hmf hdef ⊢
         unfold elemWT
         simp only [hk, beq_self_eq_true, if_true]
+        by_cases hv : vis.contains f.typeName = true
+        · rw [if_pos hv] at hmf; cases hmf
+        have hv' : vis.contains f.typeName = false := by simpa using hv
+        simp only [hv', Bool.false_eq_true, if_false] at hmf hdef
         by_cases ho : f.oneof.isSome = true
         · simp [ho] at hdef
         · by_cases hts : isTimestampName f.typeName = true
@@ -176,27 +190,27 @@ theorem fieldWT_mockField (rq : Request) (env : Env) (hc : CleanTable env.tbl) (
 /-- **the typing core**: when every emitted assignment type-checks (`msgDefects = []`) and the
 example table holds text only, the value the mock returns inhabits the response type. -/
 theorem wt_mockMsg (rq : Request) (env : Env) (hc : CleanTable env.tbl) :
-    ∀ fuel site m, msgDefects rq fuel m = [] → wt rq fuel m (mockMsg rq env fuel site m) = true := by
+    ∀ fuel path site m, msgDefects rq fuel path m = [] → wt rq fuel m (mockMsg rq env fuel path site m) = true := by
   intro fuel
   induction fuel with
-  | zero => intro site m _; simp [mockMsg, wt]
+  | zero => intro path site m _; simp [mockMsg, wt]
   | succ n ih =>
-    intro site m hd
+    intro path site m hd
     unfold msgDefects at hd
     unfold mockMsg wt
     rw [List.all_eq_true]
     intro p hp
     obtain ⟨f, hf, hfp⟩ := List.mem_filterMap.mp hp
-    cases hm : mockField rq env (mockMsg rq env n) (site ++ ['.'] ++ f.name) m.name f with
+    cases hm : mockField rq env (m.fullName :: path) (mockMsg rq env n (m.fullName :: path)) (site ++ ['.'] ++ f.name) m.name f with
     | none => rw [hm] at hfp; cases hfp
     | some v =>
       rw [hm] at hfp
       cases hfp
       rw [List.any_eq_true]
       refine ⟨f, hf, ?_⟩
-      have hdf : stmtDefects rq (msgDefects rq n) f = [] := (List.flatMap_eq_nil_iff.mp hd) f hf
+      have hdf : stmtDefects rq (m.fullName :: path) (msgDefects rq n (m.fullName :: path)) f = [] := (List.flatMap_eq_nil_iff.mp hd) f hf
       simp only [beq_self_eq_true, Bool.true_and]
-      exact fieldWT_mockField rq env hc n ih _ m.name f v hdf hm
+      exact fieldWT_mockField rq env hc n (m.fullName :: path) (ih (m.fullName :: path)) _ m.name f v hdf hm
 
 /-! ### plain examples reach the table unchanged -/
 
